@@ -400,6 +400,7 @@ func init() {
 	registerHeapModels()
 	registerCryptoModels()
 	registerBufferModels()
+	registerBoltModels()
 }
 
 // readClock: a clock read returns a value not smaller than any earlier read (ghost G_clock, in ns).
